@@ -108,11 +108,21 @@ example :
     history, none does after it (closes the "OS follows symlinks" gap of the lexical argument). -/
 theorem aliases_point_inside (root : Path) (hr : RootOK root) (ig : Bytes → Bool) (fs : FS) (reqs : List Req)
     (h : LinksInside root fs) : LinksInside root (handleAll root ig fs reqs) :=
-  (handleAll_keeps root hr ig fs reqs).2 h
+  (handleAll_keeps root hr ig fs reqs).2.1 h
 
 example : (handle [[70]] (fun _ => false) [([[70]], .dir), ([[70], [100]], .dir)]
     (.alias none [46, 46, 47, 120] (some [0, 1, 0, 0, 1, 100]))).1 =
     [([[70], [100], [120]], .link [[70], [120]]), ([[70]], .dir), ([[70], [100]], .dir)] := by decide
+
+/-- The root itself is never removed or replaced: if it is a directory before a history of requests,
+    it is a directory after it (nothing is renamed onto it, removed at it or created over it). -/
+theorem root_survives (root : Path) (hr : RootOK root) (ig : Bytes → Bool) (fs : FS) (reqs : List Req)
+    (h : lookup fs root = some .dir) : lookup (handleAll root ig fs reqs) root = some .dir :=
+  (handleAll_keeps root hr ig fs reqs).2.2 h
+
+example : lookup (handleAll [[70]] (fun _ => false) [([[70]], .dir), ([[70], [100]], .dir)]
+    [.delete none [], .setInfo none [100] none (some []), .move none [] none, .newFolder none [], .alias none [100] (some [0, 1, 0, 0, 2, 46, 46])]) [[70]] = some .dir := by
+  decide
 
 -- ---------------------------------------------------------------- folder upload (transfer connection)
 
@@ -122,6 +132,14 @@ theorem folder_item_path_normal (segs : List Bytes) : ∀ c ∈ formattedComps s
   formattedComps_normal segs
 
 example : formattedComps [[46, 46], [46, 46], [47, 101], [46, 46, 47, 120]] = [[120]] := by decide
+
+/-- …and the Go expression on byte STRINGS — `TrimPrefix(Join("/", Join(segments…)), "/")` with the
+    relative `Clean` inside — renders exactly those components. -/
+theorem folder_item_path_string_level (segs : List Bytes) :
+    joinStr [[slash], joinStr segs] = renderAbs (formattedComps segs) :=
+  formattedPath_string_level segs
+
+example : joinStr [[slash], joinStr [[46, 46], [], [97, 47, 46, 46, 47, 46, 46], [120]]] = [47, 120] := by decide
 
 /-- One folder-upload item: every path handed to the OS (the item, its `.incomplete`, the
     `fileWrapper` side files of a new file) lies under the transfer's folder, hence under the root. -/
